@@ -173,6 +173,13 @@ impl FrequencySketch {
             count += (*entry & ONE_MASK).count_ones();
             *entry = (*entry >> 1) & RESET_MASK;
         }
+        #[cfg(mini_moka_verif)]
+        {
+            crate::verif::probe("sketch.reset", 0);
+            if (count >> 2) > (self.size >> 1) {
+                crate::verif::probe("sketch.reset_saturated", 0);
+            }
+        }
         // A quarter of the number of odd counters can exceed half of the sample count
         // when the keys counted since the last reset shared few counters (each counted
         // lookup adds one to `size` but makes up to four counters odd).
